@@ -142,8 +142,10 @@ static int c669_load(struct module_data *m, HIO_HANDLE *f, const int start)
     MODULE_INFO();
 
     m->comment = (char *) malloc(109);
-    memcpy(m->comment, sfh.message, 108);
-    m->comment[108] = 0;
+    if (m->comment != NULL) {
+	memcpy(m->comment, sfh.message, 108);
+	m->comment[108] = 0;
+    }
 
     /* Read and convert instruments and samples */
 
